@@ -739,6 +739,45 @@ macro_rules! set_mod {
                         }
                         Err(_) => "key err".to_string(),
                     },
+                    // the same probe with the key object placed at a chosen offset (0, 8, 16, .. 56) inside a 64-byte aligned arena: a wipe
+                    // that assumes more alignment than the type guarantees (8) leaves the ends of the polynomials behind
+                    // drop_sk_at <set> <sk-spec> <offset> / drop_pk_at <set> <pk-spec> <offset>
+                    "drop_sk_at" | "drop_pk_at" => {
+                        #[repr(align(64))]
+                        struct Arena([u8; 40960]);
+                        let mut arena = Box::new(Arena([0u8; 40960]));
+                        let off: usize = a[3].parse().unwrap();
+                        let base = unsafe { arena.0.as_mut_ptr().add(off) };
+                        macro_rules! probe { ($ty:ty, $val:expr) => {{
+                            let n = core::mem::size_of::<$ty>();
+                            assert!(off % core::mem::align_of::<$ty>() == 0 && off + n <= 40960);
+                            let slot = base as *mut $ty;
+                            unsafe { core::ptr::write(slot, $val) };
+                            let before = (0..n).filter(|&i| unsafe { core::ptr::read_volatile(base.add(i)) } != 0).count();
+                            unsafe { core::ptr::drop_in_place(slot) };
+                            let nz: Vec<usize> = (0..n).filter(|&i| unsafe { core::ptr::read_volatile(base.add(i)) } != 0).collect();
+                            format!("ok size={} nonzero_before={} nonzero_after={} first={}", n, before, nz.len(), nz.first().map_or(-1i64, |&x| x as i64))
+                        }}}
+                        if a[0] == "drop_sk_at" {
+                            match sk_of_spec(a[2]) { Ok(sk) => probe!(api::PrivateKey, sk), Err(_) => "key err".to_string() }
+                        } else {
+                            match pk_of_spec(a[2]) { Ok(pk) => probe!(api::PublicKey, pk), Err(_) => "key err".to_string() }
+                        }
+                    }
+                    // a context of <len> bytes built here (too long for the line protocol): pure sign, hash sign, verify and hash_verify
+                    // must refuse it at once.  bigctx <set> <len>
+                    "bigctx" => {
+                        let len: usize = a[2].parse().unwrap();
+                        let ctx = vec![0u8; len];
+                        let (pk, sk) = gen("11".repeat(32).as_str());
+                        let mut r1 = ScriptRng::new(&format!("f{}", "22".repeat(32)));
+                        let s1 = sk.try_sign_with_rng(&mut r1, b"m", &ctx).is_ok();
+                        let mut r2 = ScriptRng::new(&format!("f{}", "22".repeat(32)));
+                        let s2 = sk.try_hash_sign_with_rng(&mut r2, b"m", &ctx, &ph("sha256")).is_ok();
+                        let v1 = pk.verify(b"m", &[0u8; SIG_LEN], &ctx);
+                        let v2 = pk.hash_verify(b"m", &[0u8; SIG_LEN], &ctx, &ph("sha512"));
+                        format!("ok sign={} hash_sign={} verify={} hash_verify={} rng={}", s01(s1), s01(s2), s01(v1), s01(v2), r1.script.len() + r2.script.len())
+                    }
                     "drop_pk" => match pk_of_spec(a[2]) {
                         Ok(pk) => {
                             let n = core::mem::size_of::<api::PublicKey>();
